@@ -1,6 +1,7 @@
 package main
 
 import (
+	"fmt"
 	"encoding/json"
 	"flag"
 	"math/rand"
@@ -264,6 +265,13 @@ func cmdC14Rand(args []string) {
 	for inputs < *n {
 		k := 1 + rng.Intn(5)
 		picked := map[string]bool{}
+		big := sets%4 == 3 // every fourth set is LARGE (9-20 names): search helpers behave differently on long lists
+		if big {
+			k = 9 + rng.Intn(12)
+			for len(picked) < k-3 {
+				picked[fmt.Sprintf("x-h%02d", rng.Intn(40))] = true
+			}
+		}
 		for len(picked) < k {
 			picked[acrhNamePool[rng.Intn(len(acrhNamePool))]] = true
 		}
@@ -283,8 +291,24 @@ func cmdC14Rand(args []string) {
 			setb[i] = codes(s)
 		}
 		t.emit(map[string]any{"ev": "Set", "names": setb, "spelled": spelled})
-		for j := 0; j < 150 && inputs < *n; j++ {
+		var systematic [][]string
+		if big {
+			// every ordered pair of allowed names (also equal ones), on one line and on two lines; a sample of triples
+			for i := range set {
+				for j := range set {
+					systematic = append(systematic, []string{set[i] + "," + set[j]}, []string{set[i], set[j]})
+				}
+			}
+			for q := 0; q < 200; q++ {
+				a, b, c := set[rng.Intn(len(set))], set[rng.Intn(len(set))], set[rng.Intn(len(set))]
+				systematic = append(systematic, [][]string{{a + "," + b + "," + c}, {a, b + "," + c}, {a + "," + b, c}}[rng.Intn(3)])
+			}
+		}
+		for j := 0; j < 150+len(systematic) && (inputs < *n || j < len(systematic)); j++ {
 			lines := randAcrhLines(rng, set)
+			if j < len(systematic) {
+				lines = systematic[j]
+			}
 			ok, refl := acrhApproved(h, lines)
 			lb := make([][]int, len(lines))
 			for i, l := range lines {
